@@ -40,9 +40,10 @@ def _strip(line: str) -> str:
     return re.sub(r"^\s*\d+\s+(?=(permit|deny|remark)\b)", "", line.strip())
 
 
-def _wrap_groups(acl, spans):
-    """Replace slices of the flat item list by explicit AceGroup objects."""
-    from cisco_acl import AceGroup
+def _wrap_groups(acl, spans, as_acl: bool = False):
+    """Replace slices of the flat item list by explicit AceGroup objects (or by whole Acl objects: another ACL
+    merged into this one as one item)."""
+    from cisco_acl import AceGroup, Acl
 
     items = list(acl.items)
     out, i = [], 0
@@ -57,8 +58,9 @@ def _wrap_groups(acl, spans):
         out.extend(items[i:lo])
         chunk = items[lo:lo + ln]
         # an explicit block carries the same settings as the ACL it is put into
-        out.append(AceGroup(items=chunk, platform=acl.platform, version=str(acl.version), port_nr=acl.port_nr,
-                            protocol_nr=acl.protocol_nr, max_ncwb=acl.max_ncwb))
+        kw = dict(items=chunk, platform=acl.platform, version=str(acl.version), port_nr=acl.port_nr,
+                  protocol_nr=acl.protocol_nr, max_ncwb=acl.max_ncwb)
+        out.append(Acl(name=f"SUB{len(out)}", **kw) if as_acl else AceGroup(**kw))
         i = lo + len(chunk)
     out.extend(items[i:])
     acl.items = out
@@ -83,10 +85,30 @@ def judge_acl(case) -> Verdict:
         raise Invalid()
     platform = acl_case["platform"]
     text = G.render_acl(acl_case, noise=False)
-    if target == "acl":
+    if case.get("std"):
+        # an IOS standard list: entries of the form 'action source [log]'
+        if platform != "ios" or target != "acl" or acl_case.get("group_by"):
+            raise Invalid()
+        body = []
+        for it in acl_case["items"]:
+            if it["t"] == "rem":
+                body.append(G.item_line(it, platform, noise=False))
+                continue
+            rec = it["rec"]
+            src = rec["src"]
+            if src["k"] not in ("any", "host", "prefix", "wild") or not R.is_contiguous(src["w"]) or \
+                    not G.addr_is_native(src, platform):
+                raise Invalid()
+            body.append(" ".join(x for x in [str(rec["seq"]) if rec.get("seq") else "", rec["action"],
+                                             G.render_addr(src, platform), "log" if rec.get("logs") else ""] if x))
+        text = f"ip access-list standard {acl_case['name']}\n" + "\n".join(acl_case.get("indent", " ") + ln for ln in body)
+        obj = Acl(text, **G.acl_kwargs(acl_case))
+        if obj.type != "standard":
+            raise Invalid()
+    elif target == "acl":
         obj = Acl(text, **G.acl_kwargs(acl_case))
         if case.get("spans") and not acl_case.get("group_by"):
-            _wrap_groups(obj, case["spans"])
+            _wrap_groups(obj, case["spans"], as_acl=bool(case.get("spans_as_acl")))
     else:
         body = "\n".join(text.split("\n")[1:])
         if not body.strip():
@@ -121,6 +143,10 @@ def judge_acl(case) -> Verdict:
     v = Verdict()
     boundary = start in BOUNDARY or step in BOUNDARY or (start > 0 and abs(start + (n - 1) * step - MAX) <= max(step, 2))
     v.nt(n >= 2 and (grouped or boundary))
+    if case.get("std"):
+        v.label("standard-list")
+    if case.get("spans_as_acl") and grouped:
+        v.label("acl-nested-in-acl")
     v.label("acl-grouped" if grouped else ("acegroup" if target != "acl" else "acl-flat"),
             "boundary-args" if boundary else "plain-args")
     detail = {"target": target, "start": start, "step": step, "n": n, "text": text if len(text) < 900 else text[:900]}
@@ -206,7 +232,20 @@ def acl_case_st(draw, tier):
         case["first"] = list(draw(args_st(n)))
     if case["target"] == "acl" and draw(st.sampled_from(range(4))) == 0:
         case["late"] = [draw(st.sampled_from([["rem", 0], ["rem", 1], ["rem", 2], ["ace"]])) for _ in range(draw(st.integers(1, 3)))]
+    if case["target"] == "acl" and acl["platform"] == "ios" and not acl["group_by"] and draw(st.sampled_from(range(5))) == 2:
+        ok = []
+        for it in acl["items"]:
+            if it["t"] == "ace":
+                src = it["rec"]["src"]
+                if src["k"] == "group" or not R.is_contiguous(src["w"]):
+                    it["rec"]["src"] = {"k": "any", "b": 0, "w": R.ALL1}
+                it["rec"]["src"] = G.native_addr(G.addr_pair(it["rec"]["src"]), "ios")
+            ok.append(it)
+        case["std"] = True
+        case.pop("late", None)
+        return case
     if not acl["group_by"] and draw(st.booleans()):
+        case["spans_as_acl"] = draw(st.sampled_from([False, False, True]))
         case["spans"] = [[draw(st.integers(0, n)), draw(st.integers(1, 4))] for _ in range(draw(st.integers(1, 3)))]
     return case
 
